@@ -48,7 +48,17 @@ where
         let to = to.min(stored_len);
         Self {
             reader: region.create_reader(),
+            #[cfg(not(anydb_verif))]
             pages: pages.read(),
+            #[cfg(anydb_verif)]
+            pages: {
+                rawdb::verif_tap::pause("comp-mmap-source:after-reader");
+                #[cfg(anydb_verif)]
+                crate::verif_locks::tap("pages", pages, false);
+                let guard = pages.read();
+                rawdb::verif_tap::pause("comp-mmap-source:after-pages-lock");
+                guard
+            },
             page_buf: Vec::with_capacity(Self::PER_PAGE),
             page_buf_idx: Self::NO_PAGE,
             pos: from,
